@@ -155,6 +155,16 @@ def verus_phase(pid, P, tier, seed, t0):
         open(path, 'w').write(text)
         r = run_verus(path, rlimit=P.get('rlimit', 60))
         j = r['json']
+    elif drifted and j is not None and not j['verification-results'].get('success') and em.lost:
+        # a changed item kept some of its proof hints and does not verify: a kept hint may state something about the old
+        # shape of the code that is no longer true although the contract still holds.  Try once without the body-level
+        # hints of the changed items and accept that run if everything verifies (a pass is a pass; a fail stays a fail).
+        text2, line_map2, em2, entries2 = tool.generate(set(units), no_body_hints=set(drifted))
+        path2 = os.path.join(BUILD, '%s_nohints.rs' % pid)
+        open(path2, 'w').write(text2)
+        r2 = run_verus(path2, rlimit=P.get('rlimit', 60))
+        if r2['json'] is not None and r2['json']['verification-results'].get('success'):
+            text, line_map, em, entries, r, j, path = text2, line_map2, em2, entries2, r2, r2['json'], path2
     def _resource_limited(rr):
         return any(d.get('level') == 'error' and ('rlimit' in d['message'].lower() or 'resource limit' in d['message'].lower())
                    for d in rr['diags'])
